@@ -10,8 +10,8 @@ PROP = {
             "(4) axis-angle-extract: one unit quaternion (uniform on S^3, near identity with |v| = 10^e, near a half turn, single-axis); non-trivial unless single-axis. "
             "distinct = distinct hash of (float width, backend, operand bits). Classes record the axis kind, angle class, Euler order, order family x distance decade from the singularity, source kind and gimbal branch.",
     "builds": {
-        "quick": [B("stable"), B("nightly", 0.25, False)],
-        "thorough": [B("stable"), B("nightly", 0.25, False)],
+        "quick": [B("stable"), B("fma", 0.25), B("nightly", 0.25, False)],
+        "thorough": [B("stable"), B("fma", 0.5), B("nightly", 0.25, False)],
     },
     "volume": {"quick": 3},
     "technique": "property-based testing: proptest generators (uniform and axis-aligned axes, dense/huge/tiny angles, all 24 Euler orders with middle angles constructed at and around the singularity, "
